@@ -178,8 +178,10 @@ def impl_eligible(scn):
         return False
     if any(h.get('kind', 'async') not in ('async', 'fwd', 'sync') for h in scn['handlers']):
         return False
-    if any((t or {}).get('timeout') is not None or (t or {}).get('rtype') for t in scn.get('events', {}).values()):
+    if any((t or {}).get('rtype') for t in scn.get('events', {}).values()):
         return False
+    if any((t or {}).get('timeout') is not None for t in scn.get('events', {}).values()) and any(b.get('parallel') for b in scn['buses']):
+        return False   # timeouts on parallel buses are not modelled yet
     for sc in scn['scripts'].values():
         for ops in sc.values():
             for op in ops:
@@ -218,7 +220,7 @@ def impl_trace(tr, tid):
         out = {'a': a}
         if a in ('ProcB', 'ProcE', 'ProcX'):
             ok, oa = _by(l['owner'])
-            out.update(b=l['b'], e=l['e'], ok=ok, oa=oa)
+            out.update(b=l['b'], e=l['e'], ok=ok, oa=oa, exc=l.get('exc', ''))
         elif a == 'HOp':
             out.update(act=l['act'], op=l['op'])
         elif a in _KEEP:
